@@ -47,13 +47,12 @@ func runC07BinaryRace(r *lib.Run) {
 		rdir := lib.MkTemp("c07-binrace")
 		child, err := lib.StartBinary(lib.BinaryOpts{Exe: "bazel-remote-race", Args: c.args, Env: []string{"GORACE=halt_on_error=0 log_path=" + filepath.Join(rdir, "race")}, WaitReady: 90 * time.Second})
 		if err != nil {
-			if child != nil {
-				child.Stop()
-			}
+			stopChild(child)
 			_ = os.RemoveAll(rdir)
 			r.Inconclusive("race-built server did not start (" + c.name + "): " + err.Error())
 			return
 		}
+		started := time.Now()
 		srv := lib.AttachServer(child.HTTPAddr, child.GRPCAddr)
 		var hdr map[string]string
 		if c.auth {
@@ -71,7 +70,7 @@ func runC07BinaryRace(r *lib.Run) {
 			blobs = append(blobs, blob{lib.Sha256Hex(b), b})
 		}
 		acKeys := []string{lib.RandHash(rng), lib.RandHash(rng)}
-		workers, opsEach := 16, r.N(40, 400)
+		workers, opsEach := 16, r.N(48, 480)
 		var wg sync.WaitGroup
 		var ops, bad atomic.Int64
 		for wk := 0; wk < workers; wk++ {
@@ -82,7 +81,7 @@ func runC07BinaryRace(r *lib.Run) {
 				for i := 0; i < opsEach; i++ {
 					b := blobs[wrng.IntN(len(blobs))]
 					ctx, cancel := lib.Ctx()
-					switch wrng.IntN(14) {
+					switch wrng.IntN(18) {
 					case 0, 1:
 						srv.HTTPPut("/cas/"+b.hash, b.data, hdr)
 					case 2, 3:
@@ -111,8 +110,51 @@ func runC07BinaryRace(r *lib.Run) {
 							bad.Add(1)
 							r.Violation("C07:binary-race:wrong-bytes:bs-read", fmt.Sprintf("ByteStream.Read of %s from the race-built server under concurrency returned %d bytes not matching the digest", b.hash, len(data)), map[string]any{"config": c.name})
 						}
-					case 10:
-						_, _ = srv.CAS.BatchReadBlobs(ctx, &pb.BatchReadBlobsRequest{Digests: []*pb.Digest{{Hash: b.hash, SizeBytes: int64(len(b.data))}}, AcceptableCompressors: []pb.Compressor_Value{pb.Compressor_ZSTD}})
+					case 10, 17:
+						req := &pb.BatchReadBlobsRequest{Digests: []*pb.Digest{{Hash: b.hash, SizeBytes: int64(len(b.data))}}}
+						if wrng.IntN(3) != 0 {
+							req.AcceptableCompressors = []pb.Compressor_Value{pb.Compressor_ZSTD}
+						}
+						if resp, err := srv.CAS.BatchReadBlobs(ctx, req); err == nil && len(resp.Responses) == 1 && resp.Responses[0].GetStatus().GetCode() == 0 {
+							data, derr := resp.Responses[0].Data, error(nil)
+							if resp.Responses[0].Compressor == pb.Compressor_ZSTD {
+								data, derr = lib.ZstdDecodeKP(data)
+							}
+							r.Count("binary-race.checked.batchread")
+							if derr != nil || !bytes.Equal(data, b.data) {
+								bad.Add(1)
+								r.Violation("C07:binary-race:wrong-bytes:batch-read", fmt.Sprintf("BatchReadBlobs of %s from the race-built server under concurrency returned %d bytes (compressor %v, decode err %v) not matching the digest", b.hash, len(data), resp.Responses[0].Compressor, derr), map[string]any{"config": c.name})
+							}
+						}
+					case 14:
+						if !c.auth {
+							_, err := srv.BSWrite(ctx, lib.ResUploadZstd(uuidOf(wrng), b.hash, int64(len(b.data))), zstdEncodeRand(wrng, b.data), 64*lib.KiB)
+							r.Count("binary-race.bswrite-zstd." + okStr(err == nil))
+						} else {
+							srv.HTTPGet("/cas/"+b.hash, map[string]string{"Accept-Encoding": "zstd"})
+						}
+					case 15:
+						if data, err := srv.BSRead(ctx, lib.ResZstd(b.hash, int64(len(b.data))), 0, 0); err == nil {
+							dec, derr := lib.ZstdDecodeKP(data)
+							r.Count("binary-race.checked.bsread-zstd")
+							if derr != nil || !bytes.Equal(dec, b.data) {
+								bad.Add(1)
+								r.Violation("C07:binary-race:wrong-bytes:bs-read-zstd", fmt.Sprintf("ByteStream.Read (compressed-blobs/zstd) of %s from the race-built server under concurrency returned %d bytes that do not decode to the blob (decode err %v)", b.hash, len(data), derr), map[string]any{"config": c.name})
+							}
+						}
+					case 16:
+						if !c.auth && len(b.data) < 100000 {
+							resp, err := srv.CAS.BatchUpdateBlobs(ctx, &pb.BatchUpdateBlobsRequest{Requests: []*pb.BatchUpdateBlobsRequest_Request{{Digest: &pb.Digest{Hash: b.hash, SizeBytes: int64(len(b.data))}, Data: zstdEncodeRand(wrng, b.data), Compressor: pb.Compressor_ZSTD}}})
+							r.Count("binary-race.batchupdate-zstd." + okStr(err == nil && len(resp.Responses) == 1 && resp.Responses[0].GetStatus().GetCode() == 0))
+						} else {
+							srv.HTTPPut("/cas/"+b.hash, zstdEncodeRand(wrng, b.data), func() map[string]string {
+								h := map[string]string{"Content-Encoding": "zstd", "X-Digest-SizeBytes": fmt.Sprint(len(b.data))}
+								for k, v := range hdr {
+									h[k] = v
+								}
+								return h
+							}())
+						}
 					case 11:
 						_, _ = srv.AC.GetActionResult(ctx, &pb.GetActionResultRequest{InstanceName: "inst" + fmt.Sprint(wrng.IntN(2)), ActionDigest: &pb.Digest{Hash: acKeys[wrng.IntN(2)], SizeBytes: 1}})
 					case 12:
@@ -130,6 +172,20 @@ func runC07BinaryRace(r *lib.Run) {
 			}()
 		}
 		wg.Wait()
+		if !r.Quick && ci == 0 {
+			// thorough tier: the periodic goroutines of the executable (metric period shift every 30 s, cache-age poll
+			// every 60 s) must get to run under the race detector while requests are served: keep this instance
+			// alive under light traffic until it is at least 66 s old
+			for time.Since(started) < 66*time.Second && !child.Exited() {
+				b := blobs[rng.IntN(len(blobs))]
+				srv.HTTPHead("/cas/" + b.hash)
+				srv.HTTPPut("/cas/"+b.hash, b.data, hdr)
+				srv.HTTPGet("/metrics", hdr)
+				r.Count("binary-race." + c.name + ".light-traffic-rounds")
+				time.Sleep(400 * time.Millisecond)
+			}
+			r.CountN("binary-race."+c.name+".alive_s", int64(time.Since(started).Seconds()))
+		}
 		srv.CloseClient()
 		died := child.Exited()
 		logTail := child.LogTail(3000)
